@@ -15,18 +15,19 @@ Every case runs the real `System_R.symmetrize` (or `SymWann.symmetrize` for the 
 
 Failure keys are `<observable>:<centre mode>:<shell class>:<structure>:<projections>:soc=..:mag=..` where the
 shell class says whether every orbital representation matrix (including the spin part) is a generalised
-permutation ("monomial") or not — so that a failure with centres on the sites, or for monomial shells, is never
-confused with the known displaced/non-monomial one.
+permutation ("monomial") or not.  The one expected defect (centres displaced + an operation that mixes orbitals
+with different starting centres + only position-related observables failing) gets the key
+`displaced_nonmonomial_centres:<structure>:<projections>:soc=..:mag=..[:hamonly][:subgroup]`; a failure with
+centres on the sites, for monomial shells, or of any other observable keeps its own key.
 """
 import copy
-import itertools
 
 import numpy as np
 
 ID = "C20"
 LEVEL = "exploration"
 RULE = ("cases = (structure, projection set, soc, magnetic order, R-set, centre mode, data); 'sys' cases symmetrise one "
-        "generic Hermitian model (Ham, AA, SS if soc) with System_R.symmetrize and check Hermiticity, k-space covariance of "
+        "generic Hermitian model (Ham, AA, SS if soc; or Ham alone) with System_R.symmetrize and check Hermiticity, k-space covariance of "
         "energies / total Berry curvature / spin for every group operation at 2 (quick) / 3 (thorough) k-points, R-space invariance against an "
         "independent reference, mapping of the centres, and idempotence; 'lin' cases push every impulse e(R,m,n[,c]) of the "
         "starting R-set through SymWann.symmetrize and check g.Px=Px, P(x^+)=(Px)^+ and (thorough) P^2=P. non-trivial = the group has an "
@@ -44,8 +45,6 @@ ASSUMPTIONS = [
     "(|offset| <= 0.06 in reduced coordinates), every orbital displaced differently",
     "System_R only (SystemSOC.symmetrize2 is not reached); matrices Ham, AA, SS",
 ]
-
-SQ3 = np.sqrt(3.0)
 
 # name -> (zoo lattice, [(atom name, reduced position)], magnetic moments or None)
 STRUCTS = {
@@ -108,8 +107,25 @@ def cases(tier, seed):
                     for cen in ("sites", "displaced"):
                         out.append({"kind": "sys", "struct": st, "proj": proj, "soc": soc, "rs": rs, "cen": cen,
                                     "nk": 2 if quick else 3})
+    # starting models without AA (position operator = the centres alone), spinless
+    ham_table = ({"hex2": [["A:s", "B:p"]], "zb": [["Ga:sp3", "As:sp3"]], "sc1": [["X:eg"]]} if quick else
+                 {st: [p for p in projs] for st, projs in PROJS.items() if STRUCTS[st][2] is None})
+    for st, projs in ham_table.items():
+        for proj in projs:
+            for cen in ("sites", "displaced"):
+                out.append({"kind": "sys", "struct": st, "proj": proj, "soc": False, "rs": "shell1", "cen": cen,
+                            "nk": 2 if quick else 3, "data": "ham"})
+    # symmetrisation with a subset of the operations (the unitary ones): symmetrize2(use_symmetries_index=...)
+    sub_table = ({"hex2": [["A:s", "B:p"]], "zb": [["Ga:sp3", "As:sp3"]]} if quick else
+                 {st: projs[:3] for st, projs in PROJS.items() if STRUCTS[st][2] is None})
+    for st, projs in sub_table.items():
+        for proj in projs:
+            for soc in ((False,) if quick else (False, True)):
+                for cen in ("sites", "displaced"):
+                    out.append({"kind": "sys", "struct": st, "proj": proj, "soc": soc, "rs": "shell1", "cen": cen,
+                                "nk": 2 if quick else 3, "sub": "unitary"})
     # simplest first: by number of Wannier functions
-    out.sort(key=lambda c: (layout(c)["nw"], c["struct"], projkey(c["proj"]), c["soc"], c["rs"], c["cen"]))
+    out.sort(key=lambda c: (layout(c)["nw"], c["struct"], projkey(c["proj"]), c["soc"], c["rs"], c["cen"], c.get("data", ""), c.get("sub", "")))
     lin = []
     # (structure, projections, soc, matrices)
     if quick:
@@ -204,7 +220,19 @@ def check_layout(symmetrizer, shells):
     for b in sorted(set(shells.block)):
         ss = [s for s in range(shells.nshell) if shells.block[s] == b]
         mine.append((len(ss), shells.norb[ss[0]]))
-    return got == mine and int(bi[-1][1]) == shells.num_wann
+    if not (got == mine and int(bi[-1][1]) == shells.num_wann):
+        return False
+    # the site maps recomputed here from the positions must be the library's (same ordering of the atoms)
+    from wbmc.symwann_oracle import shell_map
+    for isym, op in enumerate(group_ops(symmetrizer)):
+        sm = shell_map(shells, op["W"], op["w"])
+        for sh in range(shells.nshell):
+            b, a = shells.block[sh], shells.atom[sh]
+            if int(symmetrizer.atommap_list[b][a, isym]) != shells.atom[sm[sh][0]]:
+                return False
+            if not np.array_equal(np.rint(symmetrizer.T_list[b][a, isym]).astype(int), -sm[sh][1]):
+                return False
+    return True
 
 
 def shell_class(symmetrizer):
@@ -323,27 +351,45 @@ TOL = 1e-9
 
 def run_sys(case, seed):
     from wbmc import symwann_oracle as so
-    mats = ("Ham", "AA") + (("SS",) if case["soc"] else ())
+    hamonly = case.get("data") == "ham"
+    mats = ("Ham",) if hamonly else ("Ham", "AA") + (("SS",) if case["soc"] else ())
     s, shells = make_start(case, seed, mats)
     start = {k: s.get_R_mat(k).copy() for k in mats}
     start_iR = np.array(s.rvec.iRvec).copy()
     start_wcc = s.wannier_centers_red.copy()
     args = sym_args(case)
-    symmetrizer = s.symmetrize(**args)
+    subset = None
+    if case.get("sub") == "unitary":
+        # System_R.symmetrize2 with the operations without time reversal (always a subgroup)
+        symmetrizer = get_symmetrizer(case)
+        subset = [i for i, o in enumerate(group_ops(symmetrizer)) if not o["TR"]]
+
+        def do_symmetrize(system):
+            system.symmetrize2(symmetrizer, use_symmetries_index=list(subset))
+    else:
+        def do_symmetrize(system):
+            return system.symmetrize(**args)
+    res = do_symmetrize(s)
+    if subset is None:
+        symmetrizer = res
     if symmetrizer is None or not check_layout(symmetrizer, shells):
-        return {"ok": False, "key": "harness:layout_mismatch", "detail": f"{case}: block layout differs from the library's",
+        return {"ok": False, "key": "layout_or_atommap_differs:" + case["struct"] + ":" + projkey(case["proj"]),
+                "detail": f"{case}: block layout / atom maps of the library differ from the ones recomputed from the positions",
                 "nontrivial": False}
     ops = group_ops(symmetrizer)
+    isyms = list(range(len(ops))) if subset is None else list(subset)
+    ops_used = [ops[i] for i in isyms]
     cls = shell_class(symmetrizer)
     mixes = mixed_centres_differ(symmetrizer, shells, start_wcc)
     mag = magname(case)
-    tail = f"{case['cen']}:{cls}:{case['struct']}:{projkey(case['proj'])}:soc={int(case['soc'])}:mag={mag}"
+    tail = f"{case['cen']}:{cls}:{case['struct']}:{projkey(case['proj'])}:soc={int(case['soc'])}:mag={mag}" + (":hamonly" if hamonly else "") + (
+        ":subgroup" if subset is not None else "")
     desc = (f"structure={case['struct']} lattice={STRUCTS[case['struct']][0]} atoms={STRUCTS[case['struct']][1]} "
             f"proj={case['proj']} soc={case['soc']} magmom={STRUCTS[case['struct']][2]} R-set={case['rs']} "
-            f"centres={case['cen']} nsym={len(ops)} seed={seed}")
+            f"centres={case['cen']} matrices={list(mats)} nsym={len(ops)} used={'all' if subset is None else subset} seed={seed}")
     iR = np.array(s.rvec.iRvec)
     wcc = s.wannier_centers_red.copy()
-    obs = {"nsym": len(ops), "nR": int(len(iR)), "class": cls, "mixed_centres_differ": bool(mixes)}
+    obs = {"nsym": len(ops_used), "nR": int(len(iR)), "class": cls, "mixed_centres_differ": bool(mixes)}
     fails = []
 
     def fail(what, val, extra=""):
@@ -357,14 +403,15 @@ def run_sys(case, seed):
         if r > TOL:
             fail(f"hermiticity:{k}", r)
     # 2. k-space covariance through the real evaluation path
-    quantities = ["energy", "berry_curvature"] + (["spin"] if case["soc"] else [])
-    cov = kspace_covariance(s, ops, quantities, nk=case.get("nk", 3))
+    quantities = ["energy", "berry_curvature_internal_terms" if hamonly else "berry_curvature"] + (
+        ["spin"] if case["soc"] else [])
+    cov = kspace_covariance(s, ops_used, quantities, nk=case.get("nk", 3))
     for q, (dev, scale) in cov.items():
         obs["cov_" + q] = dev
         if dev > 1e-7:
-            fail(f"kspace:{q}", dev, f"(relative to scale {scale:.3g})")
+            fail(f"kspace:{q.replace('_internal_terms', '')}", dev, f"(relative to scale {scale:.3g})")
     # 3. R-space invariance, independent reference
-    pos = s.get_R_mat("AA").copy()
+    pos = np.zeros((len(iR), s.num_wann, s.num_wann, 3), dtype=complex) if hamonly else s.get_R_mat("AA").copy()
     i0 = [tuple(int(x) for x in R) for R in iR].index((0, 0, 0))
     disp_cart = (wcc - shells.site_of_wf()) @ s.real_lattice
     pos[i0, np.arange(s.num_wann), np.arange(s.num_wann)] += disp_cart
@@ -372,21 +419,21 @@ def run_sys(case, seed):
         [("SS", s.get_R_mat("SS"), "SS")] if case["soc"] else [])
     for typ, X, label in targets:
         worst = 0.0
-        for isym, op in enumerate(ops):
+        for isym in isyms:
             ro = rot_orb_per_shell(symmetrizer, shells, isym)
-            worst = max(worst, so.invariance_residual(X, iR, shells, op, ro, typ))
+            worst = max(worst, so.invariance_residual(X, iR, shells, ops[isym], ro, typ))
         worst /= max(1.0, np.abs(X).max())
         obs["rspace_" + label] = worst
         if worst > TOL:
             fail(f"rspace:{label}", worst)
     # 4. centres map onto each other
-    cm = centres_map(wcc, shells, ops)
+    cm = centres_map(wcc, shells, ops_used)
     obs["centres_map"] = cm
     if cm > 1e-7:
         fail("centres_map", cm, f"centres(red)={np.round(wcc, 6).tolist()}")
     # 5. symmetrising again changes nothing
     s2 = copy.deepcopy(s)
-    s2.symmetrize(**args)
+    do_symmetrize(s2)
     iR2 = np.array(s2.rvec.iRvec)
     for k in mats:
         common, extra = compare_models(s.get_R_mat(k), iR, s2.get_R_mat(k), iR2)
@@ -405,12 +452,19 @@ def run_sys(case, seed):
         c, e = compare_models(start[k], start_iR, s.get_R_mat(k), iR)
         changed = max(changed, c, e)
     nontrivial = False
-    if len({(tuple(np.round(o["Wc"], 6).ravel())) for o in ops}) > 1 and changed > 1e-3:
-        nontrivial = ("sys", case["struct"], projkey(case["proj"]), case["soc"], mag, case["cen"], cls)
+    if len({(tuple(np.round(o["Wc"], 6).ravel())) for o in ops_used}) > 1 and changed > 1e-3:
+        nontrivial = ("sys", case["struct"], projkey(case["proj"]), case["soc"], mag, case["cen"], cls, hamonly, subset is not None)
     if fails:
         what, val, extra = fails[0]
         allw = ", ".join(f"{w}={v:.3g}" for w, v, _ in fails)
-        return {"ok": False, "key": f"{what}:{tail}", "nontrivial": nontrivial, "obs": obs,
+        key = f"{what}:{tail}"
+        # one defect, one key: the centre symmetriser keeps only the diagonal |U_ij|^2 part of the symmetrised position
+        # operator.  Its signature: centres displaced, some operation mixes orbitals whose starting centres differ, and
+        # nothing but the position-related observables fails (Ham, SS, Hermiticity and the matrices' idempotence hold).
+        if (case["cen"] == "displaced" and mixes and
+                {w for w, _, _ in fails} <= {"kspace:berry_curvature", "rspace:AA+centres", "centres_map", "idempotence:centres"}):
+            key = "displaced_nonmonomial_centres:" + tail.split(":", 2)[2]
+        return {"ok": False, "key": key, "nontrivial": nontrivial, "obs": obs,
                 "detail": f"{what} = {val:.3g} {extra}; all failing observables: [{allw}]; {desc}; "
                           f"start centres(red)={np.round(start_wcc, 4).tolist()}"}
     return {"ok": True, "nontrivial": nontrivial, "obs": obs}
